@@ -213,3 +213,137 @@ pub fn dump_typeq<'tcx>(tcx: TyCtxt<'tcx>) -> J {
     }
     J::Arr(out)
 }
+
+// Default traversal of the compiled swc_ecma_visit version: for every `impl VisitMutWith<V> for T`
+// / `impl VisitWith<V> for T` (T an AST struct/enum) dump, from the MIR of its
+// `visit_[mut_]children_with`, which field of `self` is handed to which `visit_[mut_]with` call.
+pub fn dump_default_visitors<'tcx>(tcx: TyCtxt<'tcx>) -> J {
+    use rustc_middle::mir::{Operand, Rvalue, StatementKind, TerminatorKind};
+    let mut out = Vec::new();
+    let krate = tcx.crates(()).iter().copied().find(|c| tcx.crate_name(*c).as_str() == "swc_ecma_visit");
+    let Some(krate) = krate else { return J::Arr(out) };
+    // default methods of the visitor traits: which `T::visit_*children_with` each one calls
+    for tr in tcx.traits(krate).iter() {
+        let tname = tcx.item_name(*tr).to_string();
+        if tname != "VisitMut" && tname != "Visit" {
+            continue;
+        }
+        for item in tcx.associated_items(*tr).in_definition_order() {
+            if !item.defaultness(tcx).has_value() || !tcx.is_mir_available(item.def_id) {
+                continue;
+            }
+            let body = tcx.optimized_mir(item.def_id);
+            let mut callees = Vec::new();
+            for data in body.basic_blocks.iter() {
+                if data.is_cleanup {
+                    continue;
+                }
+                if let TerminatorKind::Call { func, .. } = &data.terminator().kind {
+                    if let Some((fd, ga)) = func.const_fn_def() {
+                        let recv_ty = ga.iter().next().map(|g| format!("{}", g)).unwrap_or_default();
+                        callees.push(J::obj().with("name", J::s(tcx.item_name(fd).to_string())).with("recv_ty", J::s(recv_ty)));
+                    }
+                }
+            }
+            let sig = tcx.fn_sig(item.def_id).instantiate_identity().skip_norm_wip().skip_binder();
+            let node_ty = sig.inputs().get(1).map(|t| crate::hirdump::ty_str(*t)).unwrap_or_default();
+            out.push(
+                J::obj()
+                    .with("trait", J::s(tname.clone()))
+                    .with("method", J::s(item.name().to_string()))
+                    .with("node_ty", J::s(node_ty))
+                    .with("callees", J::Arr(callees)),
+            );
+        }
+    }
+    for tr in tcx.traits(krate).iter() {
+        let tname = tcx.item_name(*tr).to_string();
+        let (children, with) = match tname.as_str() {
+            "VisitMutWith" => ("visit_mut_children_with", "visit_mut_with"),
+            "VisitWith" => ("visit_children_with", "visit_with"),
+            _ => continue,
+        };
+        for imp in tcx.all_impls(*tr) {
+            let self_ty = tcx.type_of(imp).instantiate_identity().skip_norm_wip();
+            let ty::Adt(adt, _) = self_ty.kind() else { continue };
+            if tcx.crate_name(adt.did().krate).as_str() != "swc_ecma_ast" {
+                continue;
+            }
+            let Some(item) = tcx
+                .associated_items(imp)
+                .in_definition_order()
+                .find(|i| i.name().as_str() == children)
+            else {
+                continue;
+            };
+            let did = item.def_id;
+            let mut o = J::obj();
+            o.set("trait", J::s(tname.clone()));
+            o.set("self_ty", J::s(path_str(tcx, adt.did())));
+            if !tcx.is_mir_available(did) {
+                o.set("mir", J::Bool(false));
+                out.push(o);
+                continue;
+            }
+            let body = tcx.optimized_mir(did);
+            // local -> (variant, field) it borrows from `*_1`
+            let mut borrows: BTreeMap<String, (String, String)> = BTreeMap::new();
+            for data in body.basic_blocks.iter() {
+                for st in data.statements.iter() {
+                    if let StatementKind::Assign(b) = &st.kind {
+                        let (place, rv) = &**b;
+                        let src = match rv {
+                            Rvalue::Ref(_, _, p) => Some(*p),
+                            Rvalue::Use(Operand::Copy(p) | Operand::Move(p), ..) => Some(*p),
+                            Rvalue::RawPtr(_, p) => Some(*p),
+                            _ => None,
+                        };
+                        if let Some(p) = src {
+                            let s = format!("{:?}", p);
+                            borrows.insert(format!("{:?}", place), (s, String::new()));
+                        }
+                    }
+                }
+            }
+            let mut calls = Vec::new();
+            for data in body.basic_blocks.iter() {
+                if data.is_cleanup {
+                    continue;
+                }
+                if let TerminatorKind::Call { func, args, .. } = &data.terminator().kind {
+                    if let Some((fd, ga)) = func.const_fn_def() {
+                        let name = tcx.item_name(fd).to_string();
+                        if name != with {
+                            continue;
+                        }
+                        let recv_ty = ga.iter().next().map(|g| format!("{}", g)).unwrap_or_default();
+                        let mut arg0 = args.get(0).map(|a| format!("{:?}", a.node)).unwrap_or_default();
+                        // follow `move _k` / `copy _k` through the borrow table a few steps
+                        for _ in 0..8 {
+                            let mut key = arg0.trim_start_matches("move ").trim_start_matches("copy ").to_string();
+                            // a plain re-borrow `(*_k)` stands for `_k`
+                            if key.starts_with("(*_") && key.ends_with(')') && key[3..key.len() - 1].chars().all(|c| c.is_ascii_digit()) {
+                                key = key[2..key.len() - 1].to_string();
+                            }
+                            if key == "_1" {
+                                arg0 = key;
+                                break;
+                            }
+                            match borrows.get(&key) {
+                                Some((src, _)) => arg0 = src.clone(),
+                                None => {
+                                    arg0 = key;
+                                    break;
+                                }
+                            }
+                        }
+                        calls.push(J::obj().with("recv_ty", J::s(recv_ty)).with("place", J::s(arg0)));
+                    }
+                }
+            }
+            o.set("calls", J::Arr(calls));
+            out.push(o);
+        }
+    }
+    J::Arr(out)
+}
